@@ -552,10 +552,21 @@ class ShelfManager:
         """Store the changes in a ShelfCreator on a shelf."""
         next_shelf, shelf_file = self.new_shelf()
         try:
-            creator.write_shelf(shelf_file, message)
-        finally:
-            shelf_file.close()
-        creator.transform()
+            try:
+                creator.write_shelf(shelf_file, message)
+            finally:
+                shelf_file.close()
+        except BaseException:
+            # Don't leave a partially written shelf behind.
+            self.delete_shelf(next_shelf)
+            raise
+        try:
+            creator.transform()
+        except transform.MalformedTransform:
+            # The transform was refused before touching the tree, so nothing
+            # has been shelved.
+            self.delete_shelf(next_shelf)
+            raise
         return next_shelf
 
     def read_shelf(self, shelf_id):
